@@ -19,6 +19,20 @@ import subprocess
 import sys
 import time
 
+# seeded non-inplace operations on trees exercised by the repeat-on-the-same-object oracle (runners: c17_worker.tree_call)
+TREE_APIS = {
+    "core.ContractionTree.subtree_reconfigure": ["default", "select_random", "search_random"],
+    "core.ContractionTree.subtree_reconfigure_forest": ["default", "select_max_bfs"],
+    "core.ContractionTree.slice": ["default"],
+    "core.ContractionTree.unslice_rand": ["default"],
+    "core.ContractionTree.simulated_anneal": ["default", "sliced"],
+    "pathfinders.path_simulated_annealing.simulated_anneal_tree": ["default"],
+    "core.ContractionTree.parallel_temper": ["default"],
+    "pathfinders.path_simulated_annealing.parallel_temper_tree": ["default"],
+    "core.ContractionTree.get_subtree": ["default"],
+    "core.ContractionTree.windowed_reconfigure": ["default"],
+    "core.ContractionTreeCompressed.simulated_anneal": ["default"],
+}
 from vlib.core import COQ, REPO, VERIF, main, standard_proof_steps, strip_comments
 
 sys.path.insert(0, os.path.join(VERIF, "harness"))
@@ -278,6 +292,23 @@ def run(ctx):
                 for sd in use_seeds:
                     jobs.append({"id": "%s|%s|%s|%d" % (nm, variant, ni, sd), "api": nm, "variant": variant,
                                  "net": None if ni is None else netof(ni)[0], "seed": sd, "neti": ni})
+    # "regardless of what was called before": seeded non-inplace operations on trees, called repeatedly on the
+    # SAME object (fresh / with history), vs one call on an independent rebuild of the state (see c17_worker)
+    HISTS = ["fresh", "reconf", "slice+reconf", "reconf+anneal"]
+    api_names = {a["name"] for a in js["apis"]}
+    for nm, variants in sorted(TREE_APIS.items()):
+        if nm not in api_names:
+            continue
+        simple = nm in SIMPLE_NET
+        use_nets = ["s%d" % k for k in range(len(simple_nets))] if simple else list(range(len(nets)))
+        slow = nm in SLOW
+        use_nets = use_nets[:1] if (slow and ctx.quick) else use_nets[:ctx.n(2, 6)]
+        for variant in variants:
+            for hist in (HISTS[:2] if simple else HISTS):
+                for ni in use_nets:
+                    for sd in seeds[:1 if (slow and ctx.quick) else ctx.n(2, 4)]:
+                        jobs.append({"id": "%s|%s|%s|%d|rep:%s" % (nm, variant, ni, sd, hist), "api": nm,
+                                     "variant": variant, "net": netof(ni)[0], "seed": sd, "neti": ni, "repeat": hist})
     # corpus: the repro of every known finding is probed on every run
     corpus = []
     if os.path.isdir(CORPUS):
@@ -291,9 +322,9 @@ def run(ctx):
     configs = [
         {"name": "hash0", "hashseed": "0", "mode": {"perturb": True}},
         {"name": "hash1", "hashseed": "1", "mode": {"perturb": True, "history": True}},
-        {"name": "hash2", "hashseed": "2", "mode": {"perturb": True, "shuffle": True}},
+        {"name": "hash2", "hashseed": "2", "mode": {"perturb": True, "shuffle": True, "single_only": True}},
         {"name": "hashrandom", "hashseed": "random", "mode": {"perturb": True, "history": True, "shuffle": True}},
-        {"name": "hashrandom2", "hashseed": "random", "mode": {"perturb": True}},
+        {"name": "hashrandom2", "hashseed": "random", "mode": {"perturb": True, "single_only": True}},
         {"name": "hash0b", "hashseed": "0", "mode": {"perturb": True, "history": True, "shuffle": True}},
     ]
     if not ctx.quick:
@@ -357,6 +388,8 @@ def run(ctx):
                              "interpreters": len(recs), "distinct_results": len(distinct)}
                      if len(ctx.coverage["samples"]) < 4 and job["net"] else None)
             ctx.count("api:" + nm.split(".")[-1])
+            if job.get("repeat"):
+                ctx.count("repeat-on-same-object:" + job["repeat"])
             for f in feats:
                 ctx.count(f)
         if errs:
@@ -374,10 +407,25 @@ def run(ctx):
         # (c) oracle: same arguments + same seed => same result
         if len(distinct) > 1:
             ctx.count("nondeterministic_jobs")
-            if (nm, variant, "res") not in reported:
+            rk = (nm, variant, "res" + (":rep" if job.get("repeat") else ""))
+            if rk not in reported:
+                reported.add(rk)
                 reported.add((nm, variant, "res"))
-                ctx.fail("seeded call gives different results in fresh interpreters (same arguments, same seed): %s [%s]"
-                         % (nm, variant), replay, key=key, found_input=True)
+                if job.get("repeat"):
+                    replay["history"] = job["repeat"]
+                    replay["how"] = ("harness/props/c17_worker.py run_repeat(api, variant, net, seed, history): the call is "
+                                     "made three times on ONE object built by build_state (twice in a row, once more after "
+                                     "other seeded calls) and once on an independent rebuild; interpreters with single_only "
+                                     "make only the latter")
+                    inside = any(isinstance(v, dict) and v.get("REPEATED_CALLS_DIFFER")
+                                 for v in replay["results_by_interpreter"].values())
+                    ctx.fail("seeded call depends on what was called before: %s [%s] on a tree with history %r gives "
+                             "different results %s" % (nm, variant, job["repeat"],
+                                                       "when repeated on the same object" if inside else
+                                                       "in different interpreters"), replay, key=None, found_input=True)
+                else:
+                    ctx.fail("seeded call gives different results in fresh interpreters (same arguments, same seed): %s [%s]"
+                             % (nm, variant), replay, key=key, found_input=True)
         # (b) graph vs run time
         if st is not None and draws:
             predicted = {runtime_name_of for c in st["culprits"] for runtime_name_of in
